@@ -39,6 +39,11 @@ def ops_alphabet():
         for a in (0, 10, 15, 65528):
             for b in (5, 10, 20, 65529):
                 ops.append((kind, "%d-%d" % (a, b)))
+        ops.append((kind, "|"))
+        ops.append((kind, "10|"))
+        ops.append((kind, "10-|"))
+        ops.append((kind, "-20|"))
+        ops.append((kind, "0-65529|"))
         ops.append((kind, "65530"))
         ops.append((kind, "10-65530"))
         ops.append((kind, "70000-"))
@@ -82,7 +87,11 @@ def render(history, version):
             store.pop(arg, None)
             expect.append(("none",))
         else:
-            calls += [sess.E((kind + " " + arg).strip()), "R5000"]
+            tail = ""
+            if arg.endswith("|"):                 # marker: a second statement follows on the line
+                arg = arg[:-1]
+                tail = ":Q7=1"
+            calls += [sess.E((kind + " " + arg).strip() + tail), "R5000"]
             rng = parse_range(arg)
             if kind == "LIST":
                 if rng == "reject":
@@ -139,7 +148,7 @@ def gen(tier, rng):
         hists.append(h)
     for hi, h in enumerate(hists):
         calls, expect = render(h, hi)
-        sig = "; ".join(("%d ..." % a if k == "ins" else ("%d" % a if k == "del" else (k + " " + a).strip())) for k, a in h)
+        sig = "; ".join(("%d ..." % a if k == "ins" else ("%d" % a if k == "del" else (k + " " + a.replace("|", ":Q7=1")).strip())) for k, a in h)
         cases.append(Case(sess.session(calls), sig=sig, tag="history", meta=("hist", expect)))
     return cases
 
